@@ -371,3 +371,17 @@ Proof.
     destruct (kfold_fold_size n k indices Hk Hp f Hf), (kfold_fold_size n k indices Hk Hp g Hg); lia.
   - intros tr te. apply kfold_train_complement with (k := k) (indices := indices); assumption.
 Qed.
+
+(* a decidable sufficient test for `Permutation l (seq 0 n)`, for the Examples *)
+Definition perm_check (l : list nat) (n : nat) : bool :=
+  (length l =? n) && forallb (fun i => mem i l) (seq 0 n).
+
+Lemma perm_check_sound l n : perm_check l n = true -> Permutation l (seq 0 n).
+Proof.
+  unfold perm_check. intros H. apply andb_prop in H. destruct H as [Hl Hall].
+  apply Nat.eqb_eq in Hl. rewrite forallb_forall in Hall.
+  apply Permutation_sym. apply NoDup_Permutation_bis.
+  - apply seq_NoDup.
+  - rewrite seq_length. lia.
+  - intros i Hi. apply mem_In. apply Hall. exact Hi.
+Qed.
